@@ -24,6 +24,17 @@ dup!(Vec<i32>, Box<[i32]>, [i32; 1], [i32; 2], [i32; 3], [i32; 4], [i32; 5], [i3
 impl Dup for Bounded<&'static mut [i32]> { fn dup(&self) -> Option<Self> { None } }
 impl Dup for Fixed<&'static mut [i32]> { fn dup(&self) -> Option<Self> { None } }
 
+/// `fmt` events: Debug formatting into a sink that cannot allocate (C07 counts it as an operation like any other).
+struct Sink {
+    n: usize,
+}
+impl std::fmt::Write for Sink {
+    fn write_str(&mut self, s: &str) -> std::fmt::Result {
+        self.n += s.len();
+        Ok(())
+    }
+}
+
 const PAD: usize = 4;
 const CANARY: i32 = -999;
 
@@ -89,7 +100,7 @@ fn obs_bounded<S: SliceMut<Element = i32>>(mut rb: Bounded<S>, canary: &dyn Fn()
     (rb, o)
 }
 
-fn run_bounded<S: SliceMut<Element = i32>>(
+fn run_bounded<S: SliceMut<Element = i32> + std::fmt::Debug>(
     out: &mut Out,
     reset: &Value,
     ops: &[Value],
@@ -128,6 +139,13 @@ fn run_bounded<S: SliceMut<Element = i32>>(
                 "push" => R::Opt(rb.push(wv)),
                 "pop" => R::Opt(rb.pop()),
                 "views" => R::Unit,
+                "fmt" => {
+                    use std::fmt::Write;
+                    let mut sink = Sink { n: 0 };
+                    write!(sink, "{:?}", rb).unwrap();
+                    assert!(sink.n > 0);
+                    R::Unit
+                }
                 "clone" => {
                     if let Some(c) = rb.dup() {
                         rb = c;
@@ -292,7 +310,7 @@ fn obs_fixed<S: SliceMut<Element = i32>>(rb: Fixed<S>, canary: &dyn Fn() -> bool
     (rb, o)
 }
 
-fn run_fixed<S: SliceMut<Element = i32>>(
+fn run_fixed<S: SliceMut<Element = i32> + std::fmt::Debug>(
     out: &mut Out,
     reset: &Value,
     ops: &[Value],
@@ -328,6 +346,13 @@ fn run_fixed<S: SliceMut<Element = i32>>(
             catch(|| match ev {
                 "push" => R::Opt(Some(rb.push(wv))),
                 "views" => R::Unit,
+                "fmt" => {
+                    use std::fmt::Write;
+                    let mut sink = Sink { n: 0 };
+                    write!(sink, "{:?}", rb).unwrap();
+                    assert!(sink.n > 0);
+                    R::Unit
+                }
                 "clone" => {
                     if let Some(c) = rb.dup() {
                         rb = c;
@@ -496,7 +521,7 @@ fn gen(seed: u64, size: &str, path: &str) {
             for _ in 0..n_ops {
                 let k = rng.below(100);
                 let op = if rng.chance(1, 25) {
-                    json!({"ev":"clone","a":{"x":0}})
+                    json!({"ev": if rng.chance(1, 2) {"clone"} else {"fmt"},"a":{"x":0}})
                 } else if k < 35 {
                     fresh += 1; approx_len = (approx_len + 1).min(cap);
                     json!({"ev":"push","a":{"v":fresh}})
@@ -549,7 +574,7 @@ fn gen(seed: u64, size: &str, path: &str) {
                     match rng.below(12) { 0 => -1, 1..=8 => rng.below(cap as u64) as i64, _ => rng.below(5 * cap as u64 + 7) as i64 }
                 };
                 let op = if rng.chance(1, 25) {
-                    json!({"ev":"clone","a":{"x":0}})
+                    json!({"ev": if rng.chance(1, 2) {"clone"} else {"fmt"},"a":{"x":0}})
                 } else if k < 45 {
                     fresh += 1;
                     json!({"ev":"push","a":{"v":fresh}})
